@@ -505,7 +505,7 @@ def _compare_discovery(sim, b, services, attrs, layout, server, case):
 
 
 # --------------------------------------------------------------------------------------
-SCRIPT_KINDS = ['valid', 'valid', 'empty_list', 'repeat_handle', 'decreasing', 'descending_within', 'handle_ffff', 'wrong_type', 'error_other', 'not_found', 'short_entry', 'no_advance', 'fixed_range']
+SCRIPT_KINDS = ['valid', 'valid', 'empty_list', 'repeat_handle', 'decreasing', 'descending_within', 'handle_ffff', 'wrong_type', 'error_other', 'not_found', 'short_entry', 'no_advance', 'fixed_range', 'decl_value_behind']
 
 
 def gen_adversarial(rng, tier, seed):
@@ -643,6 +643,14 @@ def _scripted(op, start, end, kind, ulen, n):
         return bytes([0x01, op]) + struct.pack('<H', start) + bytes([0x0A])
     if kind == 'short_entry':
         return wrap([entry(h)])[:-1]
+    if kind == 'decl_value_behind':
+        # a characteristic declaration whose value handle lies BEFORE the declaration (wherever the client resumes from, it must
+        # still move forward); other procedures get the fixed group
+        if op == 0x08:
+            if start <= 5 <= end:
+                return wrap([struct.pack('<H', 5) + struct.pack('<BH', 0x02, 2) + u])
+            return bytes([0x01, op]) + struct.pack('<H', start) + bytes([0x0A])
+        kind = 'fixed_range'
     if kind == 'fixed_range':
         # the same answer whatever was asked: a group 0x0001..0x0005 (an entry below the requested start from the second request on)
         if op == 0x10:
